@@ -59,7 +59,8 @@ def drive(sc):
     mask = np.array(sc["mask"], dtype=bool)
     seed = sc.get("seed", 7)
     cfg = {"variables": {"initial_values": [0.0] * V},
-           "realizations": {"weights": [1.0] * R},
+           # (a configured weight of exactly zero in every second ensemble: samples are drawn for every realization all the same)
+           "realizations": {"weights": [0.0 if (r == 1 and (P + V + int(sc["shared"])) % 2 == 0) else 1.0 for r in range(R)]},
            "gradient": {"number_of_perturbations": P, "seed": seed},
            "samplers": [{"method": method, "shared": bool(sc["shared"])}]}
     if sc["two"]:
